@@ -64,7 +64,8 @@ type fakeTimer struct {
 	dur      time.Duration
 	resets   int
 	ch       chan time.Time
-	onReset  func(h uint32, v byte)
+	onReset  func(h uint32, v byte, d time.Duration)
+	onExtend func(d time.Duration)
 }
 
 func newFakeTimer(c *clock) *fakeTimer { return &fakeTimer{clk: c, ch: make(chan time.Time, 1)} }
@@ -86,7 +87,7 @@ func (t *fakeTimer) Reset(height uint32, view byte, d time.Duration) {
 	cb := t.onReset
 	t.mu.Unlock()
 	if cb != nil {
-		cb(height, view)
+		cb(height, view, d)
 	}
 }
 
@@ -94,7 +95,18 @@ func (t *fakeTimer) Extend(d time.Duration) {
 	t.mu.Lock()
 	t.dur += d
 	t.deadline = t.start + int64(t.dur)
+	cb := t.onExtend
 	t.mu.Unlock()
+	if cb != nil {
+		cb(d)
+	}
+}
+
+// full is what the model's timer is compared with.
+func (t *fakeTimer) full() (armed bool, h uint32, v byte, dur time.Duration) {
+	t.mu.Lock()
+	defer t.mu.Unlock()
+	return t.armed, t.height, t.view, t.dur
 }
 
 func (t *fakeTimer) Height() uint32 {
@@ -162,6 +174,24 @@ func (c *barrierCore) Write(e zapcore.Entry, fs []zapcore.Field) error {
 		default:
 		}
 	}
+	if e.Message == "received message" {
+		// dbft.go:260-266 (OnReceive) logs from/height/view; consensus.go:398 (event loop) has no height.
+		// The harness' own barrier payload carries height 0.
+		from, height := int64(-1), int64(0)
+		for _, f := range fs {
+			switch f.Key {
+			case "from":
+				from = f.Integer
+			case "height":
+				height = f.Integer
+			}
+		}
+		if height > 0 && from >= 0 {
+			c.n.mu.Lock()
+			c.n.hints = append(c.n.hints, int(from))
+			c.n.mu.Unlock()
+		}
+	}
 	if e.Level >= zapcore.ErrorLevel {
 		c.n.logErr(e.Level.String() + ": " + e.Message)
 	}
@@ -191,10 +221,13 @@ func (c *barrierCore) Write(e zapcore.Entry, fs []zapcore.Field) error {
 
 // act is one thing a node's service did, in the order it did it.
 type act struct {
-	kind byte // 'E' broadcast a payload, 'P' handed a block to its BlockQueue, 'V' reset its timer
-	ext  *npayload.Extensible
-	put  putResult
-	hv   hv
+	kind byte // 'E' broadcast a payload, 'P' handed a block to its BlockQueue, 'V' reset its timer,
+	// 'X' extended its timer, 'Q' asked for transactions (RequestTx), 'S' StopTxFlow
+	ext *npayload.Extensible
+	put putResult
+	hv  hv
+	dur time.Duration
+	req []util.Uint256
 }
 
 type node struct {
@@ -216,6 +249,9 @@ type node struct {
 	requested []util.Uint256 // transactions the service asked for (Config.RequestTx)
 	reqCalls  int
 	errs      []string
+	hints     []int  // senders of the payloads dBFT's OnReceive handled since the last collect, in order
+	lastPool  string // the verified pool as last reported to the model
+	evNow     int64  // the virtual clock (UnixNano) when the current event was handed to the service
 }
 
 type hv struct {
@@ -365,9 +401,14 @@ func newCluster(dir string, o clusterOpts) (*cluster, error) {
 		nd.priv = privs[ki]
 		nd.tm = newFakeTimer(c.clk)
 		ndd := nd
-		nd.tm.onReset = func(h uint32, v byte) {
+		nd.tm.onReset = func(h uint32, v byte, d time.Duration) {
 			ndd.mu.Lock()
-			ndd.acts = append(ndd.acts, act{kind: 'V', hv: hv{h, v}})
+			ndd.acts = append(ndd.acts, act{kind: 'V', hv: hv{h, v}, dur: d})
+			ndd.mu.Unlock()
+		}
+		nd.tm.onExtend = func(d time.Duration) {
+			ndd.mu.Lock()
+			ndd.acts = append(ndd.acts, act{kind: 'X', dur: d})
 			ndd.mu.Unlock()
 		}
 		nd.pool = extpool.New(nd.bc, 100, func([]util.Uint256) {})
@@ -393,12 +434,14 @@ func newCluster(dir string, o clusterOpts) (*cluster, error) {
 				ndd.mu.Lock()
 				ndd.requested = append([]util.Uint256(nil), h...)
 				ndd.reqCalls++
+				ndd.acts = append(ndd.acts, act{kind: 'Q', req: append([]util.Uint256(nil), h...)})
 				ndd.mu.Unlock()
 				server.RequestTx(h...)
 			},
 			StopTxFlow: func() {
 				ndd.mu.Lock()
 				ndd.requested = nil
+				ndd.acts = append(ndd.acts, act{kind: 'S'})
 				ndd.mu.Unlock()
 				server.StopTxFlow()
 			},
@@ -510,7 +553,7 @@ func (n *node) sentinel() *npayload.Extensible {
 func (n *node) sync() error {
 	deadline := time.Now().Add(90 * time.Second)
 	resetBy := time.Now().Add(20 * time.Second)
-	drained, rounds := false, 0
+	drained, rounds, confirmed := false, 0, false
 	for {
 		// drain stale barrier tokens
 		for {
@@ -535,7 +578,7 @@ func (n *node) sync() error {
 		pend := n.pending()
 		switch {
 		case pend > 0:
-			drained = false
+			drained, confirmed = false, false
 			continue
 		case pend == 0 && !drained:
 			drained = true
@@ -547,8 +590,17 @@ func (n *node) sync() error {
 		// dBFT must be working on the height after the ledger's tip.
 		_, th, _, _ := n.tm.state()
 		if th == n.bc.BlockHeight()+1 {
-			return nil
+			// The chain's block notification reaches the service on its own channel, which pending()
+			// does not see, and the timer shows the new height as soon as a view change nested in
+			// Reset (replayed ChangeViews) re-arms it — before Reset is through. One more barrier
+			// that finds the same picture proves the loop was idle when the picture was taken.
+			if confirmed {
+				return nil
+			}
+			confirmed = true
+			continue
 		}
+		confirmed = false
 		if time.Now().After(resetBy) {
 			return fmt.Errorf("%w: dBFT height %d, ledger height %d", errNoReset, th, n.bc.BlockHeight())
 		}
@@ -557,10 +609,10 @@ func (n *node) sync() error {
 }
 
 // collect returns what the node did since the previous collect.
-func (n *node) collect() (acts []act, errs []string) {
+func (n *node) collect() (acts []act, errs []string, hints []int) {
 	n.mu.Lock()
-	acts, errs = n.acts, n.errs
-	n.acts, n.errs = nil, nil
+	acts, errs, hints = n.acts, n.errs, n.hints
+	n.acts, n.errs, n.hints = nil, nil, nil
 	n.mu.Unlock()
 	return
 }
